@@ -24,6 +24,7 @@ ARR_CNT = tm.ArrayOf(INT, INT)
 VF.GHOST_SCHEMA.update({
     "nx": INT_,
     "log": LIST(BYTES_),
+    "resps": LIST(BYTES_),  # answer to each APDU of log (empty when the exchange raised)
     "stream": RAW(ARR_STREAM),
     "cnt": RAW(ARR_CNT),
     "last_cmd": INT_,
@@ -75,7 +76,7 @@ def devwf(apdu, resp):
     )
 
 
-def ghost_after_send(st, apdu):
+def ghost_after_send(st, apdu, resp=None):
     """ghost update for one exchange of `apdu` (a BYTES term)."""
     g = st.ghost
     cmd = tm.Nth(apdu, tm.Int(1))
@@ -88,10 +89,16 @@ def ghost_after_send(st, apdu):
     cnt = g["cnt"].term
     g["nx"] = as_value("int", tm.Add(to_term(g["nx"]), tm.Int(1)))
     g["log"] = Sym(("list", "bytes"), tm.Concat(g["log"].term, tm.SeqUnit(apdu)))
+    if resp is not None:
+        g["resps"] = Sym(("list", "bytes"), tm.Concat(g["resps"].term, tm.SeqUnit(resp)))
     g["stream"] = Sym(("raw", ARR_STREAM), new_stream)
     g["cnt"] = Sym(("raw", ARR_CNT), tm.Store(cnt, cmd, tm.Add(tm.Select(cnt, cmd), tm.Int(1))))
     g["last_cmd"] = as_value("int", cmd)
     g["last_op"] = as_value("int", op)
+
+
+def no_answer(resps0):
+    return Sym(("list", "bytes"), tm.Concat(resps0, tm.SeqUnit(tm.SeqEmpty(BYTES))))
 
 
 @LM.opaque_method("dongle", "exchange")
@@ -100,6 +107,7 @@ def exchange(ip, st, recv, args, kwargs):
     if kind_of(apdu) != "bytes":
         raise Unsupported("exchange of non-bytes")
     at = to_term(apdu)
+    resps0 = st.ghost["resps"].term
     ghost_after_send(st, at)
     st.trace.append("exchange")
     outs = []
@@ -110,7 +118,7 @@ def exchange(ip, st, recv, args, kwargs):
     s.assume(tm.And(tm.Le(tm.Int(0), sw), tm.Le(sw, tm.Int(0xFFFF))))
     e = I.make_exc(s, CommException, Sym("str", msg), Sym("int", sw))
     s.fields(e, True).update({"message": Sym("str", msg), "sw": Sym("int", sw), "data": None})
-    s.ghost.update(last_exc=1, last_sw=Sym("int", sw), last_msg=Sym("str", msg))
+    s.ghost.update(last_exc=1, last_sw=Sym("int", sw), last_msg=Sym("str", msg), resps=no_answer(resps0))
     outs.append((s, Raise(e)))
     # 2./3. the two exact link errors and their look-alikes: BaseException / OSError with 0,1,2 args
     for code, cname in ((2, "BaseException"), (3, "OSError")):
@@ -118,19 +126,20 @@ def exchange(ip, st, recv, args, kwargs):
             s = st.fork()
             a = [Sym("str", tm.Fresh("exc.arg%d" % k, STR)) for k in range(nargs)]
             e = I.make_exc(s, cname, *a)
-            s.ghost.update(last_exc=code, last_nargs=nargs)
+            s.ghost.update(last_exc=code, last_nargs=nargs, resps=no_answer(resps0))
             if nargs:
                 s.ghost["last_arg0"] = a[0]
             outs.append((s, Raise(e)))
     # 4. any other exception class
     s = st.fork()
     e = I.make_exc(s, OtherDeviceError, Sym("str", tm.Fresh("exc.arg0", STR)))
-    s.ghost["last_exc"] = 4
+    s.ghost.update(last_exc=4, resps=no_answer(resps0))
     outs.append((s, Raise(e)))
     # 5. an answer, under A-DEV-WF
     resp = tm.Fresh("resp", BYTES)
     st.assume(devwf(at, resp))
-    st.ghost.update(last_exc=0, last_resp=Sym("bytes", resp))
+    st.ghost.update(last_exc=0, last_resp=Sym("bytes", resp),
+                    resps=Sym(("list", "bytes"), tm.Concat(resps0, tm.SeqUnit(resp))))
     outs.append((st, Sym("bytes", resp)))
     for o in outs:
         ip.count_path()
@@ -190,6 +199,12 @@ def ghost_step(ip, st, g, og, apdu):
     conj = []
     for k in ("nx", "log", "stream", "cnt", "last_cmd", "last_op", "conn", "disc"):
         conj.append(tm.Eq(to_term(g.attrs[k]), to_term(tmp.ghost[k])))
+    r0, r1 = to_term(og.attrs["resps"]), to_term(g.attrs["resps"])
+    last = tm.Nth(r1, tm.Len(r0))
+    conj.append(tm.Eq(r1, tm.Concat(r0, tm.SeqUnit(last))))
+    # the recorded answer is the returned one when there was an answer, empty otherwise
+    conj.append(tm.Eq(last, tm.Ite(tm.Eq(to_term(g.attrs["last_exc"]), tm.Int(0)),
+                                   to_term(g.attrs["last_resp"]), tm.SeqEmpty(BYTES))))
     return as_value("bool", tm.And(*conj))
 
 
@@ -197,7 +212,7 @@ def ghost_step(ip, st, g, og, apdu):
 def ghost_same_log(ip, st, g, og):
     """no exchange happened between og and g"""
     conj = []
-    for k in ("nx", "log", "stream", "cnt", "last_cmd", "last_op", "conn", "disc"):
+    for k in ("nx", "log", "resps", "stream", "cnt", "last_cmd", "last_op", "conn", "disc"):
         conj.append(tm.Eq(to_term(g.attrs[k]), to_term(og.attrs[k])))
     return as_value("bool", tm.And(*conj))
 
